@@ -130,6 +130,7 @@ func All() []Val {
 		{"a-nested", "[[1], [2]]", arr(arr(i(1)), arr(i(2))), "array"},
 		{"a-mixed", `["a", 1.0]`, arr(s("a"), f(1)), "array"},
 		{"a-shared", "", shared, "array"},
+		{"a-imm-nested", "[immutable([[1]])]", arr(imarr(arr(i(1)))), "array"},
 		{"ia-empty", "immutable([])", imarr(), "imarray"},
 		{"ia-1", "immutable([1])", imarr(i(1)), "imarray"},
 		{"ia-123", "immutable([1, 2, 3])", imarr(i(1), i(2), i(3)), "imarray"},
@@ -137,6 +138,7 @@ func All() []Val {
 		{"m-empty", "{}", mp(), "map"},
 		{"m-a1", "{a: 1}", mp(kv{"a", i(1)}), "map"},
 		{"m-a1b2", "{a: 1, b: [2]}", mp(kv{"a", i(1)}, kv{"b", arr(i(2))}), "map"},
+		{"m-imm-nested", "{k: immutable({j: [1]})}", mp(kv{"k", immp(kv{"j", arr(i(1))})}), "map"},
 		{"im-empty", "immutable({})", immp(), "immap"},
 		{"im-a1", "immutable({a: 1})", immp(kv{"a", i(1)}), "immap"},
 		{"im-a1b2", "immutable({a: 1, b: [2]})", immp(kv{"a", i(1)}, kv{"b", arr(i(2))}), "immap"},
